@@ -157,12 +157,37 @@ def system_search(run, rnd, dates, n_pops):
         pops = [steer_population(rnd, date) for _ in range(n_pops)]
         pops += [(mixed_household(rnd, date, w), ["mixed household"]) for w in range(1200, 2700, 100)]
         pops += [elderly_mixed(rnd, date) for _ in range(max(6, n_pops // 2))]
-        for df, kinds in pops:
+        queue = list(pops)
+        n_variants = 0
+        while queue:
+            df, kinds = queue.pop(0)
             ok, res = run.attempt(f"simulate at {date}", popgen.simulate, df, date, targets=T,
                                   replay={"date": date, "data": popgen.frame_to_json(df)})
             if not ok:
                 continue
             stats["pops"] += 1
+            # wealth swept across the break-even band of the wealth checks: for needs units with a Kinderzuschlag
+            # entitlement before the wealth check, wealth = exemption + a fraction of that entitlement
+            if "wealth-band" not in kinds and n_variants < 3 * max(4, len(pops) // 3):
+                try:
+                    w = popgen.simulate(df, date, targets=["_kinderzuschl_vor_vermög_check_m_bg", "arbeitsl_geld_2_vermög_freib_bg"])
+                except Exception:  # noqa: BLE001
+                    w = None
+                if w is not None and (w["_kinderzuschl_vor_vermög_check_m_bg"] > 0).any():
+                    bg = res["bg_id"].to_numpy()
+                    vor = w["_kinderzuschl_vor_vermög_check_m_bg"].to_numpy()
+                    frei = w["arbeitsl_geld_2_vermög_freib_bg"].to_numpy()
+                    for theta in (0.3, 0.7, 0.97):
+                        d2 = df.copy()
+                        wealth = np.zeros(len(df))
+                        seen_bg = set()
+                        for i in range(len(df)):
+                            if vor[i] > 0 and bg[i] not in seen_bg and df["alter"].iloc[i] >= 18:
+                                seen_bg.add(bg[i])
+                                wealth[i] = frei[i] + theta * vor[i]
+                        d2["vermögen_bedürft"] = wealth
+                        queue.append((d2, list(kinds) + ["wealth-band"]))
+                        n_variants += 1
             a = res["arbeitsl_geld_2_m_bg"].to_numpy()
             kz = res["kinderzuschl_m_bg"].to_numpy()
             wg = res["wohngeld_m_wthh"].to_numpy()
